@@ -97,15 +97,15 @@ class UnitManager(AoE2Object):
             raise ValueError("Cannot use both x,y notation and tile notation at the same time")
 
         return self.add_unit(
-            player=player or unit.player,
-            unit_const=unit_const or unit.unit_const,
-            x=x or unit.x,
-            y=y or unit.y,
-            z=z or unit.z,
-            rotation=rotation or unit.rotation,
-            garrisoned_in_id=garrisoned_in_id or unit.garrisoned_in_id,
-            animation_frame=animation_frame or unit.initial_animation_frame,
-            status=status or unit.status,
+            player=player if player is not None else unit.player,
+            unit_const=unit_const if unit_const is not None else unit.unit_const,
+            x=x if x is not None else unit.x,
+            y=y if y is not None else unit.y,
+            z=z if z is not None else unit.z,
+            rotation=rotation if rotation is not None else unit.rotation,
+            garrisoned_in_id=garrisoned_in_id if garrisoned_in_id is not None else unit.garrisoned_in_id,
+            animation_frame=animation_frame if animation_frame is not None else unit.initial_animation_frame,
+            status=status if status is not None else unit.status,
             reference_id=reference_id,
             tile=tile,
         )
